@@ -10,3 +10,6 @@ func simYield(string) {}
 func simPreferQuit() bool { return false }
 
 func simNewCache(interface{}) {}
+
+// simImportBatch: rescan batch size override (0 = none).
+const simImportBatch = uint64(0)
